@@ -14,7 +14,8 @@ Open Scope N_scope.
 Inductive pkind :=
 | KStop            (* stopError (env.Stop) *)
 | KOut             (* outError (failed write or show) *)
-| KFatal           (* *fatalError (env.Fatal, missing converter, a panic inside a callback) *)
+| KFatal           (* *fatalError (env.Fatal, missing converter) *)
+| KPanicError      (* *PanicError: the panics of a Scriggo function called back by native code *)
 | KScriggoRuntime  (* runtimeError, the type of the runtime errors raised by the VM itself *)
 | KGoRuntime       (* a runtime.Error of the Go runtime *)
 | KString          (* a string (the panics of package reflect) *)
@@ -62,6 +63,7 @@ Definition convert (fn_nil : bool) (op : Z) (callee_native : bool) (p : payload)
   match p_kind p with
   | KStop => CStop (p_id p)
   | KOut => CPanic (Some (p_id p))
+  | KPanicError => CPanic None          (* returned as it is: runFunc links vm.panic after its last record *)
   | k =>
     let op := if fn_nil || Z.eqb op gen_OpReturn then gen_OpCallNative else op in
     if rule_matches op p then CPanic None
